@@ -6,8 +6,10 @@
 //! exit status: 0 = shard completed (violations, if any, are in the WAL and summary),
 //!              3 = hang candidate (summary has next_start), anything else = worker died.
 
+mod alloc;
 mod catalog;
 mod geo;
+mod gridgen;
 mod harness;
 mod json;
 mod props;
@@ -16,6 +18,9 @@ mod textgen;
 mod util;
 
 use harness::{Cfg, Tier, H};
+
+#[global_allocator]
+static GLOBAL: alloc::Counting = alloc::Counting;
 use std::sync::atomic::Ordering;
 
 fn main() {
